@@ -377,23 +377,42 @@ DECL = {
 }
 
 
+OWN = {"A": ("SA",), "A2": ("SA",), "B": ("SB",), "M": ("SM",)}
+
+
 def file_texts(cfg, with_includes=True):
-    """The three source files of a configuration.  A file uses the types of a
-    file it includes directly (and only then)."""
+    """The source files of a configuration.  A file uses the types of a file
+    it includes directly (and only then).  A2 is a different file that is also
+    called A.prophy: same type names, other numbers."""
     incs = cfg["incs"]
 
     def inc_lines(f):
         return "".join('#include "%s.prophy"\n' % leaf for leaf in incs[f]) if with_includes else ""
     a = inc_lines("A") + DECL["A"]
+    a2 = "const CA = 5;\nenum EA { EA_x = 1, EA_y = 5 };\nstruct SA { u8 x[CA]; EA e; u16 extra; };\n"
     b = inc_lines("B") + "struct SB { %su16 y; u64 z; };\n" % ("SA a; " if "A" in incs["B"] else "")
     m = inc_lines("M") + "struct SM { %s%su8 t; i16 w<>; };\n" % ("SA a; " if "A" in incs["M"] else "",
                                                                    "SB b; " if "B" in incs["M"] else "")
-    return {"A": a, "B": b, "M": m}
+    return {"A": a, "A2": a2, "B": b, "M": m}
 
 
-def single_file_text(cfg):
+def closure(cfg, f, seen=None):
+    """files (in dependency order) that the declarative resolution makes visible from f"""
+    seen = seen if seen is not None else []
+    for r in cfg["res"][f]:
+        if r != "?" and r not in seen and r != f:
+            closure(cfg, r, seen)
+    if f not in seen:
+        seen.append(f)
+    return seen
+
+
+def single_file_text(cfg, f="M"):
     t = file_texts(cfg, with_includes=False)
-    return t["A"] + t["B"] + t["M"]
+    files = closure(cfg, f)
+    if "A" in files and "A2" in files:
+        return None          # two different files define the same names: no single-file equivalent
+    return "".join(t[x] for x in files)
 
 
 def materialise(cfg, root):
@@ -402,13 +421,13 @@ def materialise(cfg, root):
     paths = {}
     for d in ("d0", "d1", "d2", "out", "single", "elsewhere"):
         os.makedirs(os.path.join(root, d), exist_ok=True)
-    for f in ("M", "A", "B"):
+    for f in ("M", "A", "B", "A2"):
         d = "d0" if f == "M" else cfg["dirOf"][f]
-        paths[f] = os.path.join(root, d, f + ".prophy")
+        if d == "none":
+            continue
+        paths[f] = os.path.join(root, d, ("A" if f == "A2" else f) + ".prophy")
         with open(paths[f], "w") as fh:
             fh.write(texts[f])
-    with open(os.path.join(root, "single", "ALL.prophy"), "w") as fh:
-        fh.write(single_file_text(cfg))
     return paths
 
 
@@ -497,17 +516,34 @@ def include_worker(cases, wid, extra):
                 res["fails"].append(dict(basef, what="prophyc failed on a well-formed multi-file schema: %s" % (nodes,)))
                 shutil.rmtree(root, ignore_errors=True)
                 continue
-            for f in ("M", "A", "B"):
-                got = opens.get(os.path.abspath(paths[f]), 0)
+            for f in ("M", "A", "B", "A2"):
+                got = opens.get(os.path.abspath(paths[f]), 0) if f in paths else 0
                 if got != cfg["reads"][f]:
                     res["fails"].append(dict(basef, what="file %s was opened %d time(s); the specification reads it %d time(s)"
                                              % (f, got, cfg["reads"][f])))
-            # equivalence with the single file
-            if set(cfg["mains"]) == {"M", "A", "B"}:
-                sdir = os.path.join(root, "single")
+            # every main file against the single-file concatenation of what it can see
+            for f in cfg["mains"]:
+                text1 = single_file_text(cfg, f)
+                if text1 is None:
+                    res["n_no_single_file"] = res.get("n_no_single_file", 0) + 1
+                    continue
+                sdir = os.path.join(root, "single_" + f)
+                os.makedirs(sdir)
+                with open(os.path.join(sdir, "ALL.prophy"), "w") as fh:
+                    fh.write(text1)
                 st2, nodes2, _ = CL.run_main([os.path.join(sdir, "ALL.prophy"), "--python_out", sdir])
                 if st2 != "ok":
-                    raise RuntimeError("single-file rendering does not compile: %s" % (nodes2,))
+                    raise RuntimeError("single-file rendering does not compile: %s\n%s" % (nodes2, text1))
+                sn = {n.name: n for n in nodes2["ALL"]}
+                for n in nodes[f]:
+                    if hasattr(n, "byte_size") and n.name in sn:
+                        if (n.byte_size, n.alignment, n.kind) != (sn[n.name].byte_size, sn[n.name].alignment, sn[n.name].kind):
+                            res["fails"].append(dict(basef, what="layout of %s in %s.prophy differs: multi-file (%r,%r,%r), "
+                                                     "single file (%r,%r,%r)" % (n.name, f, n.byte_size, n.alignment, n.kind,
+                                                                                 sn[n.name].byte_size, sn[n.name].alignment, sn[n.name].kind)))
+            # importable package + encodings, when no two files share a name in this run
+            if set(cfg["mains"]) == {"M", "A", "B"} and cfg["reads"]["A2"] == 0:
+                sdir = os.path.join(root, "single_M")
                 try:
                     mods = load_package(out, "p", ["A", "B", "M"])
                     single = P.import_generated(sdir, "ALL")
@@ -515,15 +551,7 @@ def include_worker(cases, wid, extra):
                     res["fails"].append(dict(basef, what="generated per-file modules do not import: %s" % P.exc_text(e)))
                     shutil.rmtree(root, ignore_errors=True)
                     continue
-                sn = {n.name: n for n in nodes2["ALL"]}
-                for stem in ("A", "B", "M"):
-                    for n in nodes[stem]:
-                        if hasattr(n, "byte_size") and n.name in sn:
-                            if (n.byte_size, n.alignment, n.kind) != (sn[n.name].byte_size, sn[n.name].alignment, sn[n.name].kind):
-                                res["fails"].append(dict(basef, what="layout of %s differs: multi-file (%r,%r,%r), single file (%r,%r,%r)"
-                                                         % (n.name, n.byte_size, n.alignment, n.kind, sn[n.name].byte_size,
-                                                            sn[n.name].alignment, sn[n.name].kind)))
-                if mods["A"].CA != single.CA:
+                if "A" in closure(cfg, "M") and mods["A"].CA != single.CA:
                     res["fails"].append(dict(basef, what="constant CA differs"))
                 x, y = mods["M"].SM(), single.SM()
                 for msg in (x, y):
@@ -550,7 +578,7 @@ def c16(tier, replay):
     rep = Report("C16", tier)
     rep.assumptions = [
         "spec/FileProc.tla: three files (main M, includable A and B), their directories, the -I list, include lists incl. "
-        "duplicates, a missing file, cyclic and self includes, and the command-line order - 8064 configurations, all "
+        "duplicates, a missing file, cyclic and self includes, and the command-line order, and a second file of the same name in another directory - 24192 configurations, all "
         "model-checked (ReadOnce, DirsDiscipline, DirsRestored, ResolutionDeclarative, MissingReported, Terminates)",
         "file opens are counted with sys.addaudithook; relative paths from the main's directory alternate with absolute "
         "paths from another working directory",
@@ -910,6 +938,39 @@ def _tokens(text):
     return re.findall(r"\w+|[^\w\s]|\s+", text)
 
 
+PROPHY_VOCAB = ["struct", "union", "enum", "typedef", "const", "bytes", "u8", "u16", "u32", "u64", "i8", "i64", "float",
+                "double", "{", "}", "[", "]", "<", ">", "<>", "...", "@", "*", ";", ":", ",", "=", "+", "-", "/", "<<", ">>",
+                "(", ")", "0", "1", "-1", "07", "08", "0x", "0xFF", "4294967296", "LIMIT", "Color", "Color_red", "Point",
+                "Shape", "Picture", "word_t", "nosuch", "x", "pts", "#include", '"main.prophy"', "//", "/*", "*/", "\n"]
+ISAR_VOCAB = ["<struct", "<message", "<union", "<enum", "<typedef", "<constant", "<member", "<dimension", "<enum-member",
+              "/>", ">", "</struct>", "</defs>", "</enum>", 'name="Point"', 'name="x"', 'name=""', 'type="Point"',
+              'type="u8"', 'type="nosuch"', 'type=""', 'value="4"', 'value="-1"', 'value="LIMIT + 1"', 'value="x y"',
+              'size="LIMIT"', 'size="0"', 'size="-1"', 'size2="3"', 'isVariableSize="true"', 'optional="true"',
+              'variableSizeFieldName="@x"', 'variableSizeFieldName="nosuch"', 'variableSizeFieldType="u8"',
+              'discriminatorValue="1"', 'primitiveType="16 bit integer unsigned"', 'primitiveType="bogus"', "&amp;", "&"]
+
+
+def fuzz_tokens(text, rnd, vocab):
+    """1-3 random token edits (replace / insert / delete / duplicate a line)"""
+    import re
+    toks = re.findall(r"\s+|<[^<>\s]*|[A-Za-z_][\w-]*=\"[^\"]*\"|\w+|[^\w\s]", text)
+    for _ in range(rnd.randint(1, 3)):
+        idx = [i for i, t in enumerate(toks) if t.strip()]
+        if not idx:
+            break
+        i = rnd.choice(idx)
+        op = rnd.random()
+        if op < 0.4:
+            toks[i] = rnd.choice(vocab)
+        elif op < 0.7:
+            toks.insert(i, " " + rnd.choice(vocab) + " ")
+        elif op < 0.9:
+            del toks[i]
+        else:
+            toks[i:i] = toks[max(0, i - 6):i]
+    return "".join(toks)
+
+
 def concretise(case, rnd, root):
     """A Pipeline case -> (argv, files to write, expected outputs or None)"""
     fe, fault, pos, pfault, ofault = case["fe"], case["fault"], case["pos"], case["pfault"], case["ofault"]
@@ -961,6 +1022,28 @@ def concretise(case, rnd, root):
             text += "struct Z { LIMIT l; Color_red r; };\n"
         elif fault == "greedy_not_last":
             text += "struct Z { u8 g<...>; u8 after; };\n"
+        elif fault == "token_fuzz":
+            text = fuzz_tokens(text, rnd, PROPHY_VOCAB)
+        elif fault == "self_typedef_sizer":
+            text += "typedef ZT ZT;\nstruct Z { ZT n; u8 a<@n>; };\n"
+        elif fault == "negative_shift":
+            text += "const Z = 1 << -1;\nconst Z2 = 8 >> (LIMIT - 5);\n"
+        elif fault == "huge_shift":
+            text += "const Z = 1 << 4000;\nenum ZE { ZE_a = 1 << 70 };\n"
+        elif fault == "huge_array":
+            text += "struct Z { u8 a[1 << 40]; u64 b<1 << 35>; };\n"
+        elif fault == "deep_parentheses":
+            text += "const Z = " + "(" * 400 + "1" + ")" * 400 + ";\n"
+        elif fault == "nul_byte":
+            text = text[:40] + "\x00" + text[40:]
+        elif fault == "byte_order_mark":
+            text = "\ufeff" + text
+        elif fault == "typedef_of_undefined":
+            text += "typedef Nowhere Z;\nstruct ZZ { Z z; };\n"
+        elif fault == "union_self_arm":
+            text += "union Z { 1: u8 a; 2: Z z; };\n"
+        elif fault == "enum_self_reference":
+            text += "enum Z { Z_a = Z_a + 1, Z_b = Z_c };\n"
     else:
         if fault == "malformed_xml":
             text = text.replace("</struct>", "", 1)
@@ -986,6 +1069,28 @@ def concretise(case, rnd, root):
             text = rnd.choice(["<defs/>", "<defs></defs>", "", "<?xml version='1.0'?>"])
         elif fault == "random_text":
             text = "".join(rnd.choice("<>/=\"abc defs struct member name type 123\n") for _ in range(rnd.randint(1, 200)))
+        elif fault == "token_fuzz":
+            text = fuzz_tokens(text, rnd, ISAR_VOCAB)
+        elif fault == "self_typedef_member":
+            text = text.replace("</defs>", '<typedef name="ZT" type="ZT"/><struct name="Z"><member name="a" type="ZT"/></struct></defs>')
+        elif fault == "typedef_cycle_member":
+            text = text.replace("</defs>", '<typedef name="ZA" type="ZB"/><typedef name="ZB" type="ZA"/><struct name="Z"><member name="a" type="ZA"/></struct></defs>')
+        elif fault == "union_self_arm":
+            text = text.replace("</defs>", '<union name="ZU"><member name="a" type="u8" discriminatorValue="1"/><member name="z" type="ZU" discriminatorValue="2"/></union></defs>')
+        elif fault == "negative_shift_constant":
+            text = text.replace("</defs>", '<constant name="ZK" value="1 &lt;&lt; -1"/><struct name="Z"><member name="a" type="u8"><dimension size="ZK"/></member></struct></defs>')
+        elif fault == "huge_dimension":
+            text = text.replace('size="LIMIT"', 'size="99999999999999999999"')
+        elif fault == "dangling_expression":
+            text = text.replace('size="LIMIT"', 'size="LIMIT +"')
+        elif fault == "typedef_without_type":
+            text = text.replace("</defs>", '<typedef name="ZT"/><struct name="Z"><member name="a" type="ZT"/></struct></defs>')
+        elif fault == "enum_without_members":
+            text = text.replace("</defs>", '<enum name="ZE"/><struct name="Z"><member name="a" type="ZE"/></struct></defs>')
+        elif fault == "non_numeric_enum_value":
+            text = text.replace('value="2"/></enum>', 'value="two"/></enum>')
+        elif fault == "non_numeric_discriminator":
+            text = text.replace('discriminatorValue="1"', 'discriminatorValue="one"')
     files[main] = text
     argv = [os.path.join(root, main)]
     if fe == "isar":
@@ -1090,7 +1195,9 @@ def c13(tier, replay):
                   spec="PSpec", prefix=("PCASE",), on_line=lambda t, b: cases.append(json.loads(b)))
     rep.add_tlc(res.stats)
     reps = 4 if tier == "quick" else 60
-    allcases = [c for c in cases for _ in range(reps if c["fault"] in ("random_text", "illegal_char", "empty_file") else 1)]
+    fz = 6 if tier == "quick" else 400
+    allcases = [c for c in cases for _ in range(fz if c["fault"] == "token_fuzz" else
+                                                reps if c["fault"] in ("random_text", "illegal_char", "empty_file") else 1)]
     jobs = _chunks(allcases, NCPU)
     with ProcessPoolExecutor(max_workers=NCPU) as ex:
         results = list(ex.map(termination_worker, jobs, range(len(jobs)),
